@@ -109,6 +109,9 @@ Fixpoint split_acc (s : string) (cur : string) : list string :=
 Definition split_path (s : string) : list comp :=
   filter (fun c => negb (String.eqb c "" || String.eqb c ".")) (split_acc s "").
 
+(** a string given by its bytes (the harness prints non-printable bytes this way) *)
+Definition bytes_str (l : list nat) : string := fold_right (fun n s => String (ascii_of_nat n) s) EmptyString l.
+
 Definition is_abs (s : string) : bool :=
   match s with String c _ => Ascii.eqb c slash | EmptyString => false end.
 
